@@ -665,7 +665,7 @@ pub fn random_header(rng: &mut Rng, dxgi: &[u32]) -> Header {
                 ResourceDimension::Texture2D
             },
             misc_flag: MiscFlags::from_bits_retain(if cube { 4 } else { 0 }),
-            array_size: if vol { 1 } else { *rng.pick(&[1, 1, 1, 2, 3, 6, 7]) },
+            array_size: if vol { 1 } else { *rng.pick(&[0, 1, 1, 1, 2, 3, 6, 7]) },
             alpha_mode: AlphaMode::try_from(rng.below(5) as u32).unwrap(),
         })
     } else {
@@ -1053,6 +1053,15 @@ pub fn gen(seed: u64, thorough: bool) -> Vec<String> {
                 v[j] ^= 1 << rng.below(32);
             }
             out.push(format!("X 9:12:10:-:3:0:M:{}:{}:{}:{}:{}:{}", v[0], v[1], v[2], v[3], v[4], v[5]));
+        }
+    }
+    // every DXGI code x resource dimension x cube x array size 0/1/2: conversions exist only for array size 1
+    for code in dxgi.iter() {
+        for (dim, misc) in [(2u32, 0u32), (3, 0), (4, 0), (3, 4)] {
+            for array in [0u32, 1, 2] {
+                let d = if dim == 4 { "5" } else { "-" };
+                out.push(format!("X 10:20:12:{d}:2:{code}:{dim}:{misc}:{array}:0"));
+            }
         }
     }
     let nx = if thorough { 300_000 } else { 6_000 };
